@@ -121,15 +121,19 @@ def theorem_statements(mod):
     return out
 
 
-def lock_diff(mods):
-    """differences between the Props modules and the committed lock"""
+def lock_diff(mods, current=None):
+    """differences between the Props modules and the committed lock. `current[mod]` = {theorem: hash of the ELABORATED
+    statement as printed by `#check`} (from audit()); the hash covers the whole type, not a prefix of the source text"""
     try:
         lock = json.load(open(LOCK))
     except Exception:
         return ["theorems.lock.json is missing or unreadable"]
     out = []
     for mod in mods:
-        cur = theorem_statements(mod) if os.path.exists(module_path(mod)) else {}
+        if current is not None and mod in current:
+            cur = current[mod]
+        else:
+            cur = audit(mod)["statements"] if os.path.exists(module_path(mod)) else {}
         want = lock.get(mod)
         if want is None:
             out.append("%s is not in theorems.lock.json" % mod)
@@ -157,11 +161,21 @@ def audit(mod):
     os.makedirs(adir, exist_ok=True)
     f = os.path.join(adir, mod.replace(".", "_") + ".lean")
     with open(f, "w") as fh:
-        fh.write("import %s\n" % mod)
+        fh.write("import %s\nset_option pp.deepTerms true\nset_option pp.maxSteps 1000000\n" % mod)
         for n in names:
             fh.write("#print axioms %s\n" % n)
+        fh.write("#eval IO.println \"=====STATEMENTS=====\"\n")
+        for n in names:
+            fh.write("#eval IO.println \"=====%s\"\n#check @%s\n" % (n, n))
     p = subprocess.run(["lake", "env", "lean", f], cwd=LEAN, capture_output=True, text=True)
     out = p.stdout + p.stderr
+    statements = {}
+    if "=====STATEMENTS=====" in out:
+        for chunk in out.split("=====STATEMENTS=====", 1)[1].split("=====")[1:]:
+            name, _, body = chunk.partition("\n")
+            # the elaborated statement as Lean prints it (`@name : type`), whitespace-normalised
+            statements[name.strip()] = hashlib.sha256(" ".join(body.split()).encode()).hexdigest()[:16]
+        out = out.split("=====STATEMENTS=====", 1)[0]
     axioms = {}
     for n in names:
         m = re.search(r"'%s' depends on axioms: \[([^\]]*)\]" % re.escape(n), out)
@@ -171,7 +185,8 @@ def audit(mod):
             axioms[n] = []
         else:
             axioms[n] = None  # not found: theorem missing / file failed
-    return {"theorems": names, "axioms": axioms, "forbidden": hits, "ok": p.returncode == 0, "log": out}
+    return {"theorems": names, "axioms": axioms, "forbidden": hits, "ok": p.returncode == 0, "log": out,
+            "statements": statements}
 
 
 def run_driver(lines, timeout=3600):
@@ -248,6 +263,8 @@ class Check:
                 self.broken.append(("missing-module", m))
                 continue
             a = audit(m)
+            self._statements = getattr(self, "_statements", {})
+            self._statements[m] = a["statements"]
             for n in a["theorems"]:
                 obligations.append(n)
                 ax = a["axioms"].get(n)
@@ -262,7 +279,7 @@ class Check:
             self.unproved_goals += goals
         for m in relevant_fail:
             self.broken.append(("build", m))
-        for d in lock_diff(self.props_modules):
+        for d in lock_diff(self.props_modules, getattr(self, "_statements", None)):
             self.broken.append(("theorem-lock", d))
         if self.tier == "thorough" and not self.broken:
             # the toolchain's independent re-checker replays the compiled property modules against the kernel
